@@ -94,6 +94,13 @@ func (m FileMatcher) Match(file *ast.File, d data.Data) (data.Data, bool) {
 			return false
 		}
 
+		// Comments never match anything, and a comment group emptied by
+		// an earlier change of the same patch has no position to report.
+		switch n.(type) {
+		case *ast.Comment, *ast.CommentGroup:
+			return false
+		}
+
 		d, ok := m.NodeMatcher.Match(reflect.ValueOf(n), d, nodeRegion(n))
 		if !ok {
 			return true
